@@ -84,9 +84,9 @@ def run(ctx):
                       "with that error; the action worker's end breaks the loop")
     ctx.rule("R15.5", "error discipline: every function of the watchexec crate that constructs a RuntimeError returns it (Result/Vec/RuntimeError) or "
                       "sends it on the error channel")
-    ctx.rule("R15.6", "watcher callback: a failed process_event sends exactly one error with try_send, whose result is explicitly discarded")
+    ctx.rule("R15.6", "watcher callback: a failed process_event sends exactly one error with try_send, whose result is explicitly discarded; process_event's error conversions are pure wraps")
     ctx.rule("R15.8", "handlers run without the handler lock: ChangeableFn::call clones the handler out before calling it and no lock guard in the "
-                      "crate is live across a user callback or an await, so an error handler can replace itself")
+                      "crate is live across a user callback or an await, so an error handler can replace itself; clones of a ChangeableFn share one cell, so a handler replaced on the Config is the one the error task calls")
     ctx.rule("R15.7", "ErrorHook is not Clone and critical()/elevate() consume it; the critical slot is a OnceLock (first elevation wins)")
 
     # ---- R15.1 (from the throttle model)
@@ -306,7 +306,22 @@ def run(ctx):
     except Skip:
         pass
 
+    # ... and the two error conversions of process_event only wrap what they were given (an unreadable event need not carry a path)
+    try:
+        pe = ctx.anchor_fn("R15.6", "watchexec::sources::fs::process_event")
+        cls = {c.def_.rsplit("::", 1)[-1]: pathx.desc(thir.peel(thir.root(c))).replace("^", "") for c in facts.children(pe) if c.kind == "closure"}
+        wraps = sorted(v for v in cls.values() if v.startswith(("FsWatcher{", "EventChannelTrySend{")))
+        ctx.require(wraps == ["EventChannelTrySend{ctx: 'fs watcher', err: err}", "FsWatcher{kind: kind, err: Event{0: err}}"], "R15.6", "process-event-errors-wrap",
+                    "process_event turns a watcher error / a full queue into one RuntimeError by wrapping it, nothing else", pe.loc(pe.line), detail=str(wraps),
+                    fail="process_event's error conversions do more than wrap the error (%s): a malformed watcher error can fail inside the callback instead of being reported" % wraps)
+    except Skip:
+        pass
+
     _c13.lock_scope(ctx, "R15.8")
+    try:
+        _c13.changeable_primitives(ctx, "R15.8")    # the handler the error task holds is a clone sharing the cell with Config::error_handler
+    except Skip:
+        pass
 
     # ---- R15.2b
     try:
